@@ -146,8 +146,76 @@ def run_chain_twin(req):
                                       "resumed_after_extraction": 1 if len(e0) > 1 else 0}}
 
 
+def run_c_driven_agen(req):
+    """a RUNNING async generator whose frame has no Python caller - it is driven directly by a C callable, here the send
+    method of its asend() awaitable used as a thread's function - observed from inside itself, several hundred times, from a
+    class-based awaitable's __next__ and through a functools.partial (call sites the adaptive interpreter cannot specialise).
+    The interpreter never crashes; the generator's behaviour is what it is un-observed."""
+    import _thread
+    import functools
+    import threading
+    import stackscope
+    n = req.get("iterations", 300)
+    results = {}
+    for observed in (True, False):
+        done = threading.Event()
+        log = []
+        box = {}
+
+        class Aw:
+            def __await__(self):
+                return self
+
+            def __iter__(self):
+                return self
+
+            def __next__(self):
+                if observed:
+                    st = stackscope.extract(box["ag"])
+                    log.append(("aw", len(st.frames) > 0))
+                else:
+                    log.append(("aw", True))
+                raise StopIteration
+
+        def probe():
+            if observed:
+                st = stackscope.extract(box["ag"])
+                log.append(("call", len(st.frames) > 0))
+            else:
+                log.append(("call", True))
+
+        call_probe = functools.partial(probe)
+        # (compiled afresh for each run: the interpreter's per-instruction caches live in the code object, and what matters
+        # here happens while they are still adapting)
+        ns = {"Aw": Aw, "call_probe": call_probe, "done": done, "n": n}
+        exec(compile("async def agen_fn():\n    try:\n        for _i in range(n):\n            await Aw()\n"
+                     "            call_probe()\n    finally:\n        done.set()\n    yield 1\n",
+                     "<c06-c-driven-%s>" % observed, "exec"), ns)
+        ag = ns["agen_fn"]()
+        box["ag"] = ag
+
+        # (the awaitable's send method itself is the thread function: no Python frame above the generator's)
+        _thread.start_new_thread(ag.asend(None).send, (None,))
+        if not done.wait(120):
+            return {"harness_error": "the generator's thread did not finish"}
+        results[observed] = list(log)
+        try:
+            ag.aclose().send(None)
+        except BaseException:
+            pass
+    obs = []
+    if results[True] != results[False]:
+        diff = [i for i, (a, b) in enumerate(zip(results[True], results[False])) if a != b][:3]
+        obs.append({"kind": "pure.running_async_generator_without_python_caller", "observed_len": len(results[True]),
+                    "unobserved_len": len(results[False]), "first_differences": diff,
+                    "detail": "an extraction made from inside the running generator returned no frames / the run differs"})
+    return {"obs": obs, "stats": {"extractions": len(results[True])}}
+
+
 def handle(req):
     op = req["op"]
+    if op == "pure.c_driven_agen":
+        return run_c_driven_agen(req)
     if op == "pure.twin":
         return run_twin(req)
     if op == "pure.chain":
